@@ -3,6 +3,7 @@ package checks
 import (
 	"encoding/json"
 	"fmt"
+	"io"
 	"os"
 	"path/filepath"
 	"sort"
@@ -120,16 +121,16 @@ func c01LimitsOf(thorough bool) c01Limits {
 // a created LTSV table that no commit can write
 func c01Alphabet(thorough bool) []string {
 	if thorough {
-		return append(append([]string(nil), c01m.Alphabet...), "S2F", "D2z", "AV", "RV", "CLX")
+		return append(append([]string(nil), c01m.Alphabet...), "S2F", "D2z", "AV", "RV", "IS", "US", "CLX")
 	}
 	// a column rename of the temporary table (same width, other header) and a DELETE that affects nothing belong to the quick tier too: a statement that changes no record must leave
 	// an oddly spelled file byte-identical
-	return append(append([]string(nil), c01m.Alphabet...), "D2z", "RV")
+	return append(append([]string(nil), c01m.Alphabet...), "D2z", "RV", "IS")
 }
 
 func inBase(ops []string) bool {
 	for _, o := range ops {
-		if o == "S2F" || o == "D2z" || o == "AV" || o == "RV" || o == "CLX" {
+		if o == "S2F" || o == "D2z" || o == "AV" || o == "RV" || o == "IS" || o == "US" || o == "CLX" {
 			return false
 		}
 	}
@@ -564,6 +565,7 @@ func c01Inproc(c *core.Ctx, dir string, k c01Case) {
 	// 40 s cannot: a wait that long is a lock this very process leaked, and the run is then reported.
 	env.Tx.UpdateWaitTimeout(40, 5*time.Millisecond)
 	env.Tx.Flags.ExportOptions.Format = option.CSV
+	env.Sess.SetStdin(io.NopCloser(strings.NewReader(c01m.StdinCSV)))
 	release := c01HoldForeignLock(dir, k)
 	defer release()
 	r := c01Exec(env, k.SQL)
